@@ -80,6 +80,17 @@ class ConcreteEngine:
             raise Unrepresentable(name)
         return int(v)
 
+    def date(self, name):
+        import datetime
+        vals = []
+        for part, dflt in (('y', 2000), ('m', 1), ('d', 1)):
+            k = '%s.%s' % (name, part)
+            v = self.model.get(k, dflt)
+            if v is None:
+                raise Unrepresentable(k)
+            vals.append(int(Fraction(v)))
+        return datetime.date(*vals)
+
     def choice(self, name, options):
         if name not in self.choices:
             # choice made after the point the counterexample was taken: any option will do
